@@ -38,7 +38,9 @@ Dual(h) == h.proto = "gm"                  \* signing + encryption certificate
 HasSKE(h) == h.kx \in {"ecc", "ecdhe"}
 \* certificates that must not be accepted.  GMSSL: also a non-SM2 certificate and swapped key usages (both refused even
 \* with verification off: the client needs an SM2 key of the right usage); TLS: an extended key usage that excludes servers
-CertKinds(h) == {"good", "untrusted", "expired", "notyet", "wrongname"} \cup (IF Dual(h) THEN {"rsa", "wrongusage"} ELSE {"wrongeku"})
+\* "lookalike_root": self-signed, with the subject and the key identifier of the root the client trusts, but another key;
+\* "noipsan": the client addresses the server by an IP literal and the (otherwise good) certificate names no IP address
+CertKinds(h) == {"good", "untrusted", "expired", "notyet", "wrongname", "lookalike_root", "noipsan"} \cup (IF Dual(h) THEN {"rsa", "wrongusage"} ELSE {"wrongeku"})
 HonestOf(h) == {h, [h EXCEPT !.verify = FALSE]} \cup {[h EXCEPT !.policy = p] : p \in Policies}
 
 ScenariosOf(h) ==
